@@ -292,6 +292,8 @@ for opn, op in [('shrink_to_fit', 0), ('shrink_to', 1), ('reserve_exact', 2), ('
     add('k1_heap', 'heap_vec_%s_e8' % opn, 'heap_vec_capacity_h::<E8>(%d, false)' % op, props=['C10', 'C18'], tier='q', cost=20, macro='ha')
     add('k1_heap', 'heap_vec_%s_e3' % opn, 'heap_vec_capacity_h::<E3>(%d, false)' % op, props=['C10'], tier='t', cost=40, macro='ha')
     add('k1_heap', 'heap_vec_%s_e1' % opn, 'heap_vec_capacity_h::<E1>(%d, false)' % op, props=['C10'], tier='q' if op == 0 else 't', cost=20, macro='ha')
+add('k1_heap', 'heap_vec_rawparts_e8', 'heap_vec_rawparts_h::<E8>()', props=['C17', 'C18'], tier='q', cost=20, macro='ha')
+add('k1_heap', 'heap_vec_rawparts_e3', 'heap_vec_rawparts_h::<E3>()', props=['C17'], tier='t', cost=30, macro='ha')
 add('k1_heap', 'heap_vec_shrink_to_fit_typed_e8', 'heap_vec_capacity_h::<E8>(0, true)', props=['C10'], tier='q', cost=20, macro='ha')
 
 
@@ -379,7 +381,7 @@ for n in (1, 3, 8, 24):
         attrs=['#[kani::unwind(10)]'], flags=['nolc'], cost=30, macro='p')
 add('k1_loops', 'drop_closure_unbounded', 'drop_closure_unbounded_h()', props=['C03', 'C05'], tier='q', cost=5, macro='p', attrs=['#[kani::unwind(4)]'])
 add('k1_loops', 'clone_fn_unbounded', 'clone_fn_unbounded_h()', props=['C08', 'C03', 'C05'], tier='q', cost=5, macro='p', attrs=['#[kani::unwind(4)]'])
-add('k1_loops', 'clone_from_stack', 'clone_from_h()', props=['C08', 'C04', 'C11', 'C12'], tier='q', kind='bounded', bound='real Stack<16> vectors (capacity 2) of two 8-byte element types, lengths 0..=2', attrs=['#[kani::unwind(6)]'], flags=['nolc'], cost=30, macro='p')
+add('k1_loops', 'clone_from_stack', 'clone_from_h()', props=['C08', 'C04', 'C09', 'C11', 'C12'], tier='q', kind='bounded', bound='real Stack<16> vectors (capacity 2) of two 8-byte element types, lengths 0..=2', attrs=['#[kani::unwind(6)]'], flags=['nolc'], cost=30, macro='p')
 add('k1_loops', 'nop_clone', 'nop_clone_h()', props=['C08'], tier='q', cost=2, macro='p')
 B3 = 'real Stack<16> vector of u32 (capacity 4), every state and index in that bound, real copy_bytes unwound'
 add('k1_loops', 'k3_insert_u8', 'k3_insert_h::<u8, 6, 6>()', props=['C01', 'C05'], tier='t', kind='bounded', bound='real Stack<6> vector of u8 (capacity 6), every state and index in that bound, real copy_bytes unwound', attrs=['#[kani::unwind(20)]'], flags=['nolc'], cost=40, macro='p')
